@@ -11,7 +11,8 @@ ENGINES = [
 
 
 def prop(pid, **kw):
-    kw.setdefault("package", kw["engine"])
+    if not kw.get("script"):
+        kw.setdefault("package", kw["engine"])
     PROPS[pid] = kw
 
 
@@ -370,3 +371,59 @@ prop(
     rule="evaluations = scenarios; non-trivial = >=1 job, distinct by (quit manner, per job wrap/state/reactions)",
     tiers={"quick": {"shards": NC, "budget": 40, "min_evaluations": 600}, "thorough": {"shards": NC, "budget": 420}},
 )
+
+ENGINES.append({"name": "wxcli", "path": "lib/wxcli.py", "serves_properties": ["C05", "C08", "C18"],
+                "kind_free_text": "E4 end-to-end engine (python): the production watchexec binary built with the hooks OFF runs the vchild helper as "
+                                  "its command in a temp project; the driver makes file changes / sends signals with monotonic timestamps and an "
+                                  "offline checker reads the merged driver + helper log; readiness through /proc fdinfo (inotify) and the helper's start line"})
+
+prop(
+    "C05",
+    title="On-busy policy: do-nothing, queue, restart and signal behave as documented",
+    engine="wxcli",
+    script="wxcli.py",
+    needs_cli=True,
+    needs_vchild=True,
+    level="exploration",
+    level_text=("the production binary (hooks off) in the four --on-busy-update modes and the -r / --signal shorthands, with and without "
+                "--postpone, --stop-signal, --stop-timeout {300, 500 ms}, --delay-run, debounce {20, 40 ms}, running a helper command "
+                "that exits quickly, runs 1.3 s, ignores the stop signal, or exits 60 ms after it. Scenario templates place change "
+                "bursts while idle, deep inside a run, at the moment of exit, during the grace period, back to back, as a three-step "
+                "history (change in run N, change in the queued / restarted run N+1) and inside the --delay-run of a previous change. "
+                "Offline rules over the merged driver + helper log: runs never overlap (each helper probes its predecessor at start); "
+                "first run at start-up unless postponed; idle change => exactly one run; do-nothing: no signal, no further run from a "
+                "change deep inside a run; signal: the configured signal reaches the same pid and nothing starts while it runs; "
+                "restart: stop signal first, fresh run after, a signal-ignoring command is replaced no earlier than --stop-timeout "
+                "after the change; queue: no signal, exactly one further run; restart and queue: the last change is followed by a run "
+                "that started after it (bounded progress 10 s); no run disappears without an exit line or a signal; runs <= changes + 1"),
+    level_note=("real time: changes are classified definite-mid-run only with a 300 ms margin to both run ends, bursts near a boundary "
+                "only get the timing-free rules; lower bounds use the driver's pre-change timestamp; microsecond-wide races inside the "
+                "queue bookkeeping are reached only by luck at this level (the evidence counts bursts within 5 ms of a run end)"),
+    technique="offline checker over the recorded history of an end-to-end run of the production binary (ordering / exactly-once / non-overlap rules)",
+    rule="evaluations = scenarios (one watchexec process each); non-trivial = not the idle template, distinct by (mode, template, child kind, options)",
+    tiers={"quick": {"shards": 10, "budget": 50, "min_evaluations": 150}, "thorough": {"shards": NC, "budget": 420}},
+)
+
+prop(
+    "C18",
+    title="Commands are spawned with exactly the configured program and arguments",
+    engine="wxlib",
+    needs_vchild=True,
+    needs_cli=True,
+    extra={"script": "wxcli.py", "shards": 4},
+    level="exploration",
+    level_text=("library part: generated Commands — Exec{helper, args} with arguments from a hostile pool (empty string, spaces, quotes, "
+                "$VAR, globs, ;, newlines, tabs, multi-byte, 4 KiB) and Shell{prog = the helper itself, options, program_option in "
+                "{-c, /C, none}, command, extra args} — spawned through start_job plain / grouped / session; the helper dumps its "
+                "argv bytes, cwd, pgid, sid and environment. Oracle: argv byte for byte and in the documented order; grouped => "
+                "pgid == pid != ours; session => sid == pid; plain => our pgid and sid; env / cwd set by the spawn hook visible, and "
+                "absent when the hook did not set them. CLI part: `watchexec -1` with -n, --shell=none and --shell='<helper> opts' "
+                "(the helper is the shell and must receive <opts> -c '<words joined by single spaces>') x --wrap-process"),
+    level_note="the helper takes its own settings from the environment so that the entire argument vector is under test",
+    technique="differential monitor at the process boundary: the child reports what it received, compared byte for byte with the configuration",
+    rule="evaluations = spawns; non-trivial = >=1 argument, distinct by (mode, wrap, argument bytes)",
+    tiers={"quick": {"shards": 8, "budget": 25, "min_evaluations": 2000}, "thorough": {"shards": NC, "budget": 240}},
+)
+
+PROPS["C08"]["extra"] = {"script": "wxcli.py", "shards": 4}
+PROPS["C08"]["needs_cli"] = True
